@@ -1,7 +1,7 @@
 //! Server-level properties (engine srvx): C07 C08 C09 C10 C18 and the server parts of C04 C11 C13.
 use crate::explore::{bfs, record, Limits};
 use crate::props::small_build;
-use crate::srvx::{tagged_expect_head, tagged_get, tagged_put, ClientCfg, Orders, Role, SrvCfg};
+use crate::srvx::{tagged_expect_head, tagged_get, tagged_put, ClientCfg, Orders, Role, SAct, SrvCfg};
 use crate::util::{workers, Part};
 
 fn explore(part: &mut Part, cfg: &SrvCfg, max_states: usize, max_secs: f64) {
@@ -125,6 +125,46 @@ fn companion(part: &mut Part, cfg: &SrvCfg, depth: usize) {
     crate::explore::record_stateless(part, &cfg.label, depth, &t);
 }
 
+/// Long scripted histories: every prefix (from `from` on) of one fixed action sequence is a
+/// state; monitors and terminal probes run on each. Reaches hidden counters that de-duplication
+/// by digest cannot (hundreds of polls, tens of connections) without any search.
+fn histories(part: &mut Part, cfg: &SrvCfg, path: Vec<SAct>, from: usize) {
+    use crate::explore::System;
+    let n = path.len() + 1 - from.min(path.len());
+    let t = crate::par::par_enum(
+        n as u64,
+        workers().min(n),
+        120,
+        |i, t| {
+            let cut = from.min(path.len()) + i as usize;
+            let o = cfg.run(&path[..cut]);
+            t.evals += 1;
+            if o.nontrivial {
+                t.nontrivial += 1;
+            }
+            t.outcome(o.obs % 4096);
+            if let Some(v) = o.violation {
+                t.violate(&v.signature, v.detail, v.replay);
+            }
+        },
+        |i| format!("prefix of length {} of the scripted history of '{}'", from + i as usize, cfg.label),
+    );
+    part.add("histories", t.evals);
+    part.add("transitions", t.evals);
+    part.add("traces_validated_against_impl", t.evals);
+    part.push("scripted_histories", serde_json::json!({"config": cfg.label, "actions": path.len(), "prefixes_run": t.evals, "distinct_outcome_classes": t.outcomes.len()}));
+    for v in &t.violations {
+        part.violations.push(v.clone());
+    }
+    for e in &t.machinery_errors {
+        part.machinery_errors.push(format!("{}: {}", cfg.label, e));
+    }
+}
+
+fn rep(a: SAct, n: usize) -> Vec<SAct> {
+    std::iter::repeat(a).take(n).collect()
+}
+
 fn split_at(v: Vec<u8>, at: usize) -> Vec<Vec<u8>> {
     vec![v[..at].to_vec(), v[at..].to_vec()]
 }
@@ -171,6 +211,23 @@ pub fn c08(thorough: bool) -> Vec<Part> {
     d.closure_all = true;
     d.flush_probe = true;
     cfgs.push(d);
+    {
+        // D2: a response that needs a second write of a few hundred bytes: remainder in flight
+        let cl = ClientCfg::well_behaved(vec![tagged_get(0, 0), tagged_get(0, 1)]);
+        let mut d2 = SrvCfg::base("C08", "5000-byte responses through a minimal SO_SNDBUF: in-flight remainder that fits once the client has read", vec![cl]);
+        d2.resp_sizes = vec![5, 5000];
+        d2.small_sndbuf = true;
+        d2.closure_all = true;
+        d2.flush_probe = true;
+        cfgs.push(d2);
+        // F: a body of exactly the payload limit, then a pipelined request
+        let mut s = tagged_put(0, 0, &vec![b'x'; 51200]);
+        s.extend_from_slice(&tagged_get(0, 1));
+        let mut f = SrvCfg::base("C08", "a body of exactly the default payload limit (51200 bytes) followed by a pipelined request", vec![ClientCfg::well_behaved(vec![s])]);
+        f.closure_all = true;
+        f.max_depth = 80;
+        cfgs.push(f);
+    }
     if thorough {
         let mut pair2 = tagged_get(2, 0);
         pair2.extend_from_slice(&tagged_put(2, 1, b"zz"));
@@ -339,6 +396,40 @@ pub fn c07(thorough: bool) -> Vec<Part> {
         };
         explore_req(&mut part, &cfg, if thorough { 4_000_000 } else { 500_000 }, if thorough { 2400.0 } else { 120.0 }, req);
     }
+    {
+        // a pair of requests answered with a >= 4096-byte response and then a small one
+        let mut pair = tagged_get(0, 0);
+        pair.extend_from_slice(&tagged_get(0, 1));
+        let mut c0 = ClientCfg::adversary(vec![pair, tagged_get(0, 2)]);
+        c0.reads = true;
+        c0.can_close = false;
+        c0.can_shut_rd = false;
+        c0.can_shut_wr = false;
+        let mut big = SrvCfg::base("C07", "three requests of one client answered with 4200-byte and 5-byte responses in any mix", vec![c0]);
+        big.resp_sizes = vec![4200, 5];
+        big.max_outstanding_for_respond = 2;
+        explore(&mut part, &big, 200_000, 60.0);
+    }
+    if part.violations.is_empty() {
+        // long histories: a connection that closed with a request in flight is polled 40 / 300
+        // more times before a newcomer is accepted and the stale request is answered
+        for polls in [40usize, 300] {
+            let mk = |c: usize| {
+                let mut cl = ClientCfg::adversary(vec![tagged_get(c, 0)]);
+                cl.reads = true;
+                cl.can_shut_rd = false;
+                cl.can_shut_wr = false;
+                cl
+            };
+            let mut cfg = SrvCfg::base("C07", &format!("scripted: close with a request in flight, {} further polls, newcomer on the freed descriptor, late answer", polls), vec![mk(0), mk(1), mk(2)]);
+            cfg.max_depth = 1000;
+            let mut path = vec![SAct::Connect(0), SAct::Poll(0), SAct::Connect(1), SAct::Poll(0), SAct::Send(0), SAct::Send(1), SAct::Poll(0), SAct::Close(0)];
+            path.extend(rep(SAct::Poll(0), polls));
+            path.extend([SAct::Connect(2), SAct::Poll(0), SAct::Poll(0), SAct::Respond(0, 0), SAct::Poll(0), SAct::Poll(0), SAct::Recv(2, 0), SAct::Send(2), SAct::Poll(0), SAct::Respond(0, 0), SAct::Respond(0, 0), SAct::Poll(0), SAct::Poll(0), SAct::Recv(2, 0), SAct::Recv(1, 0)]);
+            let from = 8 + polls.saturating_sub(2);
+            histories(&mut part, &cfg, path, from);
+        }
+    }
     run_matrix(&mut part, "C07", thorough);
     vec![part]
 }
@@ -434,6 +525,41 @@ pub fn c09(thorough: bool) -> Vec<Part> {
         if i == 0 && part.violations.is_empty() {
             companion(&mut part, cfg, if thorough { 12 } else { 9 });
         }
+    }
+    if part.violations.is_empty() {
+        // flood: two clients with a full read's worth of pipelined requests each + the witness
+        let flood = |c: usize| {
+            let mut v = vec![];
+            for k in 0..40 {
+                v.extend_from_slice(&tagged_get(c, k));
+            }
+            let mut a = ClientCfg::adversary(vec![v]);
+            a.can_close = false;
+            a.can_shut_rd = false;
+            a.can_shut_wr = false;
+            a
+        };
+        let mut f = SrvCfg::base("C09", "flood: two clients pipelining 40 requests each in one segment; witness", vec![flood(0), flood(1), { let mut w = witness(2); w.preconnected = true; w }]);
+        f.closure_witness = true;
+        f.max_depth = if thorough { 40 } else { 10 };
+        f.max_outstanding_for_respond = 1;
+        f.respond_any = false;
+        f.orders = Orders::AscRev;
+        explore(&mut part, &f, 100_000, if thorough { 300.0 } else { 30.0 });
+    }
+    if part.violations.is_empty() {
+        // long history: a client that closed with an unanswered request is reported by 300 polls
+        let mut a = ClientCfg::adversary(vec![tagged_get(0, 0)]);
+        a.can_shut_rd = false;
+        a.can_shut_wr = false;
+        let mut cfg = SrvCfg::base("C09", "scripted: close with a request in flight, 300 further polls; witness", vec![a, witness(1)]);
+        cfg.closure_witness = true;
+        cfg.release_check = true;
+        cfg.max_depth = 1000;
+        let mut path = vec![SAct::Connect(0), SAct::Poll(0), SAct::Send(0), SAct::Poll(0), SAct::Close(0)];
+        path.extend(rep(SAct::Poll(0), 300));
+        path.extend([SAct::Respond(0, 0), SAct::Poll(0)]);
+        histories(&mut part, &cfg, path, 4);
     }
     run_matrix(&mut part, "C09", thorough);
     vec![part]
@@ -554,6 +680,7 @@ pub fn c10(thorough: bool) -> Vec<Part> {
         let mut cfg = SrvCfg::base("C10", "three requests in flight, shutdown(RD), answers singly or as a batch", vec![est, a]);
         cfg.release_check = true;
         cfg.closure_all = true;
+        cfg.flush_action = true;
         cfg.max_outstanding_for_respond = 3;
         explore_req(&mut part, &cfg, 300_000, if thorough { 600.0 } else { 60.0 }, &["client_shutdown_rd", "two_requests_yielded_by_one_poll"]);
     }
@@ -665,8 +792,10 @@ pub fn c18(thorough: bool) -> Vec<Part> {
         t.orders = Orders::Full;
         t.max_outstanding_for_respond = 2;
         cfgs.push(t);
+    }
+    {
         // large responses under a minimal SO_SNDBUF (unsent output) + kill
-        let mut big = ClientCfg::well_behaved(vec![tagged_get(0, 0), tagged_get(0, 1)]);
+        let mut big = ClientCfg::well_behaved(if thorough { vec![tagged_get(0, 0), tagged_get(0, 1)] } else { vec![tagged_get(0, 0)] });
         big.partial_recv = true;
         let mut u = SrvCfg::base("C18", "unsent 12 KiB output (minimal SO_SNDBUF) + kill at every point", vec![big]);
         u.kill_switch = true;
@@ -676,6 +805,8 @@ pub fn c18(thorough: bool) -> Vec<Part> {
         u.small_sndbuf = true;
         u.orders = Orders::Full;
         cfgs.push(u);
+    }
+    if thorough {
         // at capacity with two late clients
         let mut clients = vec![];
         for _ in 0..9 {
@@ -697,6 +828,38 @@ pub fn c18(thorough: bool) -> Vec<Part> {
     }
     for cfg in cfgs {
         explore(&mut part, &cfg, if thorough { 3_000_000 } else { 400_000 }, if thorough { 900.0 } else { 120.0 });
+    }
+    if part.violations.is_empty() {
+        // long history: 3 connections closed with a request in flight, every other connection
+        // and 3 late clients with unread input, then the kill switch
+        let mut clients = vec![];
+        for c in 0..13 {
+            let mut cl = ClientCfg::adversary(vec![tagged_get(c, 0)]);
+            cl.reads = true;
+            cl.can_shut_rd = false;
+            cl.can_shut_wr = false;
+            clients.push(cl);
+        }
+        let mut cfg = SrvCfg::base("C18", "scripted: 3 closed connections with requests in flight + 7 connections and 3 late clients with unread input, then kill", clients);
+        cfg.kill_switch = true;
+        cfg.kill_action = true;
+        cfg.max_depth = 1000;
+        let mut path = vec![];
+        for c in 0..10u8 {
+            path.push(SAct::Connect(c));
+            path.push(SAct::Poll(0));
+        }
+        path.extend([SAct::Send(0), SAct::Send(1), SAct::Send(2), SAct::Poll(0), SAct::Close(0), SAct::Close(1), SAct::Close(2), SAct::Poll(0)]);
+        for c in 10..13u8 {
+            path.push(SAct::Connect(c));
+            path.push(SAct::Poll(0));
+        }
+        for c in 3..13u8 {
+            path.push(SAct::Send(c));
+        }
+        let from = path.len();
+        path.extend([SAct::Kill, SAct::Poll(0), SAct::Poll(1000), SAct::Poll(0)]);
+        histories(&mut part, &cfg, path, from);
     }
     vec![part]
 }
